@@ -20,13 +20,13 @@ CHECKS = {
     "C03": {
         "script": "c03.py", "category": "model_checking",
         "technique": "stateless model checking of the real broker code under a controlled scheduler (exhaustive DFS over schedules with DPOR + sleep sets, virtual time)",
-        "text": U + " for all populations of <=3 waiting proxies (NAT x load x type) and <=2 concurrent clients (the three names, empty, absent, and case/blank/unknown spellings, for which refusal or service like unknown or like the normalised name is accepted), proxies arriving together or 100 ms apart, all load triples of one pool x 2 clients; oracle: pool compatibility, refusal only when the eligible pool is exhausted, least-loaded proxy first, /debug counts equal the reference population and zero afterwards.",
+        "text": U + " for all populations of <=3 waiting proxies (NAT x load x type) and <=2 concurrent clients (the three names, empty, absent, and case/blank/unknown spellings, for which refusal or service like unknown or like the normalised name is accepted), proxies arriving together or 100 ms apart, all load triples of one pool x 2 clients, clients arriving after every poll has ended unanswered; oracle: pool compatibility, refusal only when the eligible pool is exhausted, least-loaded proxy first, /debug counts equal the reference population and zero afterwards.",
         "design_ref": "§3 C03", "note": SCHED_NOTE,
     },
     "C04": {
         "script": "c04.py", "category": "model_checking",
         "technique": "stateless model checking of the real broker code under a controlled scheduler (exhaustive DFS over schedules with DPOR + sleep sets, virtual time)",
-        "text": U + " of real IPC.ProxyPolls/ClientOffers/ProxyAnswers, Broker() and their timers for arrivals at {0,5s,=timeout,>timeout} and answers prompt/at-timeout/late/never/duplicate/unknown-id; every request thread must return within 10 s virtual time and the broker must be empty afterwards (map, heaps, gauge, /debug, fresh client).",
+        "text": U + " of real IPC.ProxyPolls/ClientOffers/ProxyAnswers, Broker() and their timers for arrivals at {0,5s,=timeout,>timeout}, proxy NAT {unrestricted, restricted, unknown, none} x client NAT, and answers prompt/at-timeout/late/never/duplicate/unknown-id; every request thread must return within 10 s virtual time and the broker must be empty afterwards (map, heaps, gauge, /debug, fresh client).",
         "design_ref": "§3 C04", "note": SCHED_NOTE,
     },
 }
@@ -44,7 +44,7 @@ CHECKS["C11"] = {
     "script": "c11.py", "category": "exploration", "engine": "enum",
     "technique": "bounded-exhaustive enumeration on the real path/cache-URL/rendezvous code against independent references (AMP cache URL spec steps, base64url reader), recording RoundTripper and on-the-wire observation",
     "text": "DecodePath over all data strings <=3 over 6 boundary bytes x all paddings <=3 tokens; EncodePath with pinned randomness; malformed paths; CacheURL over a host-label grammar (IDN, hyphens at 3-4, 63/64-byte labels) x schemes x ports x userinfo x paths x queries x cache URLs x content types against a reference of the AMP spec + published vectors (fallback: SHA-256 of the domain as written or of its A-label form); fronting (URL.Host = front, Host header = origin) at the RoundTripper and on the wire, for three successive exchanges on one rendezvous object; status x body-size matrix around the 100 kB limit for HTTP and AMP.",
-    "design_ref": "§3 C11", "note": ENUM_NOTE + " The endpoint-equivalence clause (AMP endpoint == POST endpoint) is decided by the broker SCHED harness (c02 explores the amp entry point with the same oracle) and, over poll sizes up to the 100 000 byte limit, by a sequential enumeration through both handlers; redirect answers (3xx + Location, then 200) are enumerated for all rendezvous variants; x/net/idna is the trusted punycode primitive; slash normalisation by CacheURL is accepted (see DESIGN.md).",
+    "design_ref": "§3 C11", "note": ENUM_NOTE + " The endpoint-equivalence clause (AMP endpoint == POST endpoint) is decided by the broker SCHED harness (c02 explores the amp entry point with the same oracle) and, over poll sizes up to the 100 000 byte limit and 14 polls that differ in content (unlisted / malformed fingerprint, version, null members, legacy body), by a sequential enumeration through both handlers; redirect answers (3xx + Location, then 200) are enumerated for all rendezvous variants; x/net/idna is the trusted punycode primitive; slash normalisation by CacheURL is accepted (see DESIGN.md).",
 }
 CHECKS["C12"] = {
     "script": "c12.py", "category": "exploration", "engine": "enum",
@@ -62,7 +62,7 @@ CHECKS["C01"] = {
     "script": "c01.py", "category": "model_checking",
     "technique": "stateless model checking (DPOR + sleep sets, virtual time) of the real client dialContext closure + WebRTCPeer + encapsulationPacketConn + RedialPacketConn against the real server turbotunnelMode + QueuePacketConn, with scripted carrier faults and an ARQ stand-in for KCP",
     "text": U + " of the composition for: no fault; every single fault {carrier cut before / inside / after a write, freeze} x direction x write index (token, ClientID, length prefix+payload writes) x {enough standby carriers, one too few} x replacement delay {0, 10 s}; pairs of faults in the thorough tier. Oracle: every packet handed up on either side is byte-identical to one the peer sent in this session and attributed to its ClientID; the application byte streams are exact prefixes (never missing, duplicated, reordered or foreign data); both directions complete whenever a working carrier exists after the last fault; the redialling conn never surfaces an error; nothing of the transport is left running after shutdown.",
-    "design_ref": "§3 C01", "note": SCHED_NOTE + " Tier 1: KCP+smux are replaced by a stop-and-wait ARQ driver, the proxy by a transparent relay. Tier 2 (real time, loopback): the real client newSession (kcp-go, smux) over real WebRTCPeer objects with an in-memory data channel <-> relay <-> real server listener, ~95 fault scenarios at relay messages incl. bulk transfers with a late replacement, the bridge closing after its last write and an outage of 125 s without any proxy after acknowledged traffic; pion itself and real proxy processes are not covered. The dialContext closure is the real one (captured from newSession by a build-time hook); WebRTCPeer's transport/pipe fields are retyped to interfaces by a build-time pre-pass.",
+    "design_ref": "§3 C01", "note": SCHED_NOTE + " Tier 1: KCP+smux are replaced by a stop-and-wait ARQ driver, the proxy by a transparent relay. Tier 2 (real time, loopback): the real client newSession (kcp-go, smux) over real WebRTCPeer objects with an in-memory data channel <-> relay <-> real server listener, ~95 fault scenarios at relay messages incl. bulk transfers with a late replacement, the bridge closing after its last write, two proxies in a row that freeze and keep their connections to the server open, and an outage of 125 s without any proxy after acknowledged traffic; pion itself and real proxy processes are not covered. The dialContext closure is the real one (captured from newSession by a build-time hook); WebRTCPeer's transport/pipe fields are retyped to interfaces by a build-time pre-pass.",
 }
 CHECKS["C05"] = {
     "script": "c05.py", "category": "model_checking",
@@ -85,7 +85,7 @@ CHECKS["C16"] = {
 CHECKS["C07"] = {
     "script": "c07.py", "category": "exploration", "engine": "enum",
     "technique": "bounded-exhaustive enumeration of address spellings (filtered by Go's own parsers) x delimiter contexts x joiners x write splits on the real scrubber, with a parse-based oracle; concurrent writers: exhaustive interleaving exploration of the real LogScrubber under the controlled scheduler up to a preemption bound, without reduction",
-    "text": "3,500 (quick) / 16,186 (thorough) spellings Go accepts or prints x 33-65 left x 38-69 right contexts; ordered pairs and triples x 7 joiners; every split of two/three-line inputs into <=3 Write calls through a real LogScrubber (split invariance, whole lines only); event String() methods. Oracle: no maximal [0-9A-Fa-f:.] run of the output parses to an injected address.",
+    "text": "3,500 (quick) / 16,186 (thorough) spellings Go accepts or prints x 33-65 left x 38-69 right contexts; ordered pairs and triples x 7 joiners; every split of two/three-line inputs into <=3 Write calls through a real LogScrubber (split invariance, whole lines only); lines of 65-200 kB with an address at every offset around the write boundary; event String() methods. Oracle: no maximal [0-9A-Fa-f:.] run of the output parses to an injected address.",
     "design_ref": "§3 C07", "note": ENUM_NOTE + " Concurrent writers: 2-3 goroutines x 6 line scripts through one LogScrubber into a sink that can be descheduled before it consumes the bytes, all interleavings with <=3 (2 for 3 writers) preemptions; oracle: whole lines only, no address, no byte of a reused caller buffer, multiset of lines = scrubbed lines written.",
 }
 CHECKS["C10"] = {
@@ -134,7 +134,7 @@ CHECKS["C18"] = {
     "script": "c18.py", "category": "model_checking", "engine": "enum",
     "technique": "explicit-state search to a fixpoint over Set sequences on the real ring map + enumeration of a client_ip grammar against a net/netip reference",
     "text": "Ring map: capacities 0..3 x 4 ClientIDs x 2 addresses, all reachable canonical states (fixpoint), Get of every id compared with the reference 'latest of the last cap Sets' in every state; sanitiser: ~200 client_ip spellings (zones, ports, brackets, leading zeros, mapped/unspecified, garbage, very long) against netip; remoteIPFromSDP against a reference.",
-    "design_ref": "§3 C18", "note": ENUM_NOTE + " Concurrent Set/Get on a ring of capacity 1-2 under the scheduler (DPOR); attribution on the real stack: the sessions section of the C05 tier-2 harness (address at accept time and asked again later, carriers from different or no addresses, a ClientID the map has forgotten); proxy side: all sequences of <=3 (4) sessions over 6 kinds through the real datachannelHandler, the relay URL it dials carries this session's address or none.",
+    "design_ref": "§3 C18", "note": ENUM_NOTE + " Concurrent Set/Get on a ring of capacity 1-2 under the scheduler (DPOR), the same executions also in race mode (an access outside the lock is no scheduling point); attribution on the real stack: the sessions section of the C05 tier-2 harness (address at accept time and asked again later, carriers from different or no addresses, a ClientID the map has forgotten); proxy side: all sequences of <=3 (4) sessions over 6 kinds through the real datachannelHandler, the relay URL it dials carries this session's address or none.",
 }
 
 PENDING = {}
